@@ -135,7 +135,7 @@ static void sw_violation(const uint8_t *bytes, int n, const char *setvars)
         SW.violations++;
         snprintf(SW.msg, sizeof SW.msg, "%s", mcx_violation_msg());
         mkdir(SW.replay_dir, 0777);
-        char tb[8192], hx[4096], esc[1024];
+        static char tb[8192], hx[300000], esc[1024];
         table_print(&W, tb, sizeof tb);
         sw_hex(hx, sizeof hx, bytes, n);
         w_esc(esc, sizeof esc, bytes, n);
@@ -144,8 +144,8 @@ static void sw_violation(const uint8_t *bytes, int n, const char *setvars)
         FILE *f = fopen(SW.replay, "w");
         if (!f) mcx_fatal("cannot write %s", SW.replay);
         fprintf(f, "# sweep replay file (%s)\nmode feed\nring 1\n", SW.name);
-        fprintf(f, "argv '--prop' '%s' '--table' '%s' '--cap' '%d' '--shared' '%d' '--ubuf' '%d' '--mon' 'ALL' '--tok' '%d' '--varcb-fail' '0' '--feed-hex' '%s'%s%s %s\n", SW.prop, tb, W.cap,
-                W.shared, W.ubuf_size, W.tok_mode, hx, setvars && *setvars ? " '--setvars' '" : "", setvars && *setvars ? setvars : "", setvars && *setvars ? "'" : "");
+        fprintf(f, "argv '--prop' '%s' '--table' '%s' '--cap' '%d' '--shared' '%d' '--ubuf' '%d' '--line-max' '%d' '--mon' 'ALL' '--tok' '%d' '--varcb-fail' '0' '--feed-hex' '%s'%s%s %s\n", SW.prop, tb, W.cap,
+                W.shared, W.ubuf_size, W.line_max, W.tok_mode, hx, setvars && *setvars ? " '--setvars' '" : "", setvars && *setvars ? setvars : "", setvars && *setvars ? "'" : "");
         if (SW.extra[0]) fprintf(f, "note %s\n", SW.extra);
         fprintf(f, "prop %s\nmsg %s\ninput %s\n", SW.prop, SW.msg, esc);
         fclose(f);
